@@ -232,7 +232,7 @@ def make_source(kind, data):
     raise ValueError(kind)
 
 
-def impl_dec(mode, tname, cc, enc, data, source="counting", unmarshal=False, root=None):
+def impl_dec(mode, tname, cc, enc, data, source="counting", unmarshal=False, root=None, front=None):
     """Run Binary.marshal on the real code; return canonical lines (events, then one R line).
     source: "counting" (pull counts are real) or another iterable kind (pull counts printed as 0).
     unmarshal: additionally re-encode the emitted events with Binary.unmarshal (lines U and S before R)."""
@@ -254,7 +254,13 @@ def impl_dec(mode, tname, cc, enc, data, source="counting", unmarshal=False, roo
         from tpmstream.common.path import Path as _Path
         kwargs["root_path"] = _Path.from_string(root)
     lines = []
-    gen = Binary.marshal(**kwargs)
+    if front is None:
+        gen = Binary.marshal(**kwargs)
+    else:
+        # the same decode through a text front-end; `data` is the text, the pull counts are characters of the text
+        import importlib
+        fm = importlib.import_module("tpmstream.io.hex.marshal" if front == "hex" else "tpmstream.io.swtpm_log.marshal")
+        gen = fm.marshal(**kwargs)
     pending = None  # a trailing InputStream* warning in warn mode becomes the outcome
     try:
         while True:
@@ -754,4 +760,96 @@ def impl_objects(mode, tname, cc, enc, data):
             out.append(f"C {1 if ok else 0}")
     except Exception as e:  # noqa
         out.append(f"C crash {type(e).__name__}")
+    return out
+
+
+def impl_late(mode, msgs):
+    """decode every message of `msgs` [(type, cc, enc, bytes)] first, keeping events and object; only then convert:
+       events_to_obj(kept events) == kept object, obj_to_events(rebuilt) == kept events (the conversions are used on results that
+       were produced earlier in the process, after any number of other decodes).  One line `L <i> ok|<what>` per message."""
+    from tpmstream.common.canonical import Generator
+    from tpmstream.common.object import events_to_obj, obj_to_events
+    kept = []
+    for tname, cc, enc, data in msgs:
+        kw = dict(tpm_type=resolve_type(tname), buffer=bytes(data), abort_on_error=(mode == "S"))
+        ccobj = TPM_CC(cc) if cc is not None else None
+        if ccobj is not None:
+            kw["command_code"] = ccobj
+        if enc:
+            kw["parameter_encryption"] = True
+        try:
+            g = Generator(Binary.marshal(**kw))
+            evs = list(g)
+            kept.append((ccobj, evs, g.value, None))
+        except Exception as e:  # noqa
+            kept.append((ccobj, None, None, type(e).__name__))
+    out = []
+    for i, (ccobj, evs, obj, err) in enumerate(kept):
+        if err is not None:
+            out.append(f"L {i} undecodable {err}")
+            continue
+        try:
+            rebuilt = events_to_obj(evs, command_code=ccobj)
+            if rebuilt != obj:
+                out.append(f"L {i} rebuilt-object-differs same_text={1 if obj_str(rebuilt) == obj_str(obj) else 0}")
+            elif list(obj_to_events(rebuilt)) != evs:
+                out.append(f"L {i} events-of-rebuilt-object-differ")
+            elif list(obj_to_events(obj)) != evs:
+                out.append(f"L {i} events-of-decoder-object-differ")
+            else:
+                out.append(f"L {i} ok")
+        except Exception as e:  # noqa
+            out.append(f"L {i} crash {type(e).__name__}")
+    return out
+
+
+def impl_enum_derive():
+    """the filtering machinery of `tpm_enum` at run time, after the parent enumeration has been used (iterated, looked up by value):
+    every subset `TPM_ALG.by_type_exactly(S)` / `by_type_at_least(S)` for S of one or two algorithm kinds must hold exactly the
+    members whose declared kinds say so (members and kinds read off the class attributes, not through the machinery under test),
+    name them like the parent, and a second derivation must agree with the first.  One line per subset."""
+    import itertools
+    from tpmstream.spec.common.values import ValidValues
+    from tpmstream.spec.structures.constants import TPM_ALG, AlgType
+    # use the parent first, the way decoding does
+    for x in (0x0001, 0x000B, 0x0010, 0x7FFF):
+        try:
+            str(TPM_ALG(x)); TPM_ALG(x).is_valid(); x in TPM_ALG
+        except Exception:  # noqa
+            pass
+    list(TPM_ALG)
+    members = {}
+    for name, attr in vars(TPM_ALG).items():
+        v = getattr(attr, "_value", None)
+        if not name.startswith("_") and v is not None and hasattr(v, "_types"):
+            members[name] = (int(v), set(v._types))
+    out = []
+    probe = sorted({x for x, _ in members.values()} | {0x0002, 0x7FFE, 0xFFFF})
+    for k in (1, 2):
+        for S in itertools.combinations(list(AlgType), k):
+            for how in ("exactly", "at_least"):
+                want = {}
+                for n, (x, ts) in members.items():
+                    if all(t in ts for t in S) and (how == "at_least" or len(ts) == len(S)):
+                        want.setdefault(x, set()).add("TPM_ALG." + n)     # aliases (SHA / SHA1) share a value
+                tag = f"{how}({'+'.join(t.name for t in S)})"
+                try:
+                    D1 = getattr(TPM_ALG, "by_type_" + how)(*S)
+                    D2 = getattr(TPM_ALG, "by_type_" + how)(*S)
+                    bad = None
+                    for D in (D1, D2):
+                        vv = ValidValues(D)
+                        for x in probe:
+                            got = vv.get(x)
+                            if (got is not None) != (x in want):
+                                bad = f"value {x}: valid={got is not None}, the declared kinds say {x in want}"
+                                break
+                            if got is not None and str(got) not in want[x]:
+                                bad = f"value {x}: text form {got}, declared name {sorted(want[x])}"
+                                break
+                        if bad:
+                            break
+                    out.append(f"V {tag} {'ok ' + str(len(want)) if bad is None else 'bad ' + bad}")
+                except Exception as e:  # noqa
+                    out.append(f"V {tag} crash {type(e).__name__}")
     return out
